@@ -69,7 +69,8 @@ instance (op : SysOp) : Decidable op.Valid := by
 /-- **NoOvertake, one step.**  When session `i` runs a command that hands responders to its own state (they are
     applied at once, *behind* nothing), no update addressed to its mailbox is still waiting in its queue — or the
     command hands nothing to its own mailbox.  When it SELECTs, no queued update is addressed to the mailbox it
-    opens.  `drain`, `flush`, `unselect` and connector-originated changes are unconstrained.
+    opens.  CLOSE counts as the EXPUNGE it runs.  `drain`, `flush`, `unselect` and connector-originated changes are
+    unconstrained.
 
     Excluded are exactly the schedules in which `Session.serve` picks the client's next mutating command (or
     SELECT) although an earlier update for that mailbox is still in the session's update queue. -/
@@ -77,6 +78,8 @@ def OpNoOvertake (s : Sys) : SysOp → Prop
   | .cmd i c => ∀ me mb e, s.sess[i]? = some me → me.sel = some mb → effect s.idx me (sidOf i) c = some e →
       pendOf (sidOf i) mb me.inbox = [] ∨ pendOf (sidOf i) mb e.ups = []
   | .select i mb => ∀ me, s.sess[i]? = some me → pendOf (sidOf i) mb me.inbox = []
+  | .close i => ∀ me mb e, s.sess[i]? = some me → me.sel = some mb → effect s.idx me (sidOf i) .expunge = some e →
+      pendOf (sidOf i) mb me.inbox = [] ∨ pendOf (sidOf i) mb e.ups = []
   | _ => True
 
 /-- **NoOvertake** along a trace -/
@@ -89,6 +92,7 @@ def NoOvertake (s : Sys) : List SysOp → Prop
 def OpQueueEmpty (s : Sys) : SysOp → Prop
   | .cmd i _ => ∀ me, s.sess[i]? = some me → me.inbox = []
   | .select i _ => ∀ me, s.sess[i]? = some me → me.inbox = []
+  | .close i => ∀ me, s.sess[i]? = some me → me.inbox = []
   | _ => True
 
 def QueueEmpty (s : Sys) : List SysOp → Prop
